@@ -22,6 +22,19 @@ std::string dropinText(const std::string& id, const std::string& kind) {
     return "this is { not json";
   if (kind == "empty")
     return "";
+  // well-formed JSON of the wrong shape (jsoncpp answers these with a
+  // Json::LogicError, which is not a std::runtime_error)
+  if (kind == "shape-array")
+    return "[1, 2]";
+  if (kind == "shape-number")
+    return "42";
+  if (kind == "shape-rulesets-strings")
+    return "{\"rulesets\": [\"x\", 3]}";
+  if (kind == "shape-name-object")
+    return "{\"rulesets\": [{\"name\": {\"x\": 1}, \"detectors\": 7}]}";
+  if (kind == "shape-detectors-object")
+    return "{\"rulesets\": [{\"name\": \"base0\", \"detectors\": {\"a\": 1}, "
+           "\"actions\": \"kill\"}]}";
   Json::Value cfg(Json::objectValue);
   Json::Value rs(Json::objectValue);
   rs["name"] = kind == "unknown-target" ? "nope" : "base0";
@@ -81,8 +94,11 @@ Json::Value genC14(Rng& rng) {
   plan["interval"] = interval;
   // files present at start-up
   int version = 0;
-  std::vector<std::string> invalidKinds = {"garbage", "partial", "unknown-target",
-                                           "unknown-plugin", "empty"};
+  std::vector<std::string> invalidKinds = {
+      "garbage",        "partial",      "unknown-target",
+      "unknown-plugin", "empty",        "shape-array",
+      "shape-number",   "shape-rulesets-strings",
+      "shape-name-object", "shape-detectors-object"};
   bool allowThrowing = rng.chance(0.25);
   if (allowThrowing)
     invalidKinds.push_back("stoi");
